@@ -6,6 +6,7 @@ import (
 	"encoding/json"
 	"errors"
 	"fmt"
+	"hash/fnv"
 	"net/http"
 	"net/url"
 	"sort"
@@ -39,18 +40,19 @@ type world struct {
 	fault  int // 1-based index of the fallible call that fails (0 = none)
 	faults map[int]bool
 	// mutable state (a well-behaved store)
-	store      map[string]J
-	inboxes    map[string]J
-	outboxes   map[string]J
-	followers  map[string]J
-	following  map[string]J
-	liked      map[string]J
-	exists     map[string]bool
-	newIDs     []string
-	nextID     int
-	held       map[string]int
+	store       map[string]J
+	inboxes     map[string]J
+	outboxes    map[string]J
+	followers   map[string]J
+	following   map[string]J
+	liked       map[string]J
+	exists      map[string]bool
+	newIDs      []string
+	nextID      int
+	genSeen     map[string]int
+	held        map[string]int
 	lockTrouble []string // lock-discipline problems seen by the store itself
-	sched      *scheduler
+	sched       *scheduler
 	// C08: request index -> id whose next Lock by that request fails (the lock is then NOT taken)
 	lockFaults map[int]string
 	curReq     int // the request running (sequential runs)
@@ -203,8 +205,8 @@ func (w *world) resp(r interface{}) {
 	w.trace[len(w.trace)-1].R = deepCopy(r)
 }
 
-func okR(v interface{}) J  { return J{"ok": v} }
-func errR() J              { return J{"err": "injected"} }
+func okR(v interface{}) J      { return J{"ok": v} }
+func errR() J                  { return J{"err": "injected"} }
 func (w *world) failed() error { w.resp(errR()); return errInjected }
 
 // ---------------------------------------------------------------- Database
@@ -489,7 +491,16 @@ func (d fakeDB) NewID(c context.Context, t vocab.Type) (*url.URL, error) {
 	if d.w.nextID < len(d.w.newIDs) {
 		s = d.w.newIDs[d.w.nextID]
 	} else {
-		s = fmt.Sprintf("https://gen.example/id/%d", d.w.nextID)
+		// named after what is being identified (and how often that was seen), not after the order of the requests
+		b, _ := json.Marshal(snap(t))
+		h := fnv.New32a()
+		h.Write(b)
+		key := fmt.Sprintf("%08x", h.Sum32())
+		if d.w.genSeen == nil {
+			d.w.genSeen = map[string]int{}
+		}
+		s = fmt.Sprintf("https://gen.example/id/%s-%d", key, d.w.genSeen[key])
+		d.w.genSeen[key]++
 	}
 	d.w.nextID++
 	d.w.mu.Unlock()
